@@ -41,7 +41,8 @@ func coordOK(hires bool, c, d float32) bool {
 func realOK(c, d float32) bool { return vp.Or(d == c, within4(c, d)) }
 
 // H_PerCall: every Destination method with arbitrary arguments (one float
-// operand fully arbitrary, the others arbitrary 1-byte coordinates) through a
+// operand, in a symbolically chosen position, fully arbitrary; the others
+// distinct concrete short-form values) through a
 // fresh Encoder in minimal legal context, Bytes, Decode: same method, same
 // adj / incr / flags / colour, numbers equal up to the format's quantisation.
 func H_PerCall() {
@@ -60,13 +61,17 @@ func H_PerCall() {
 	n := drive.NArgs(k)
 	hot := 0
 	if n > 0 {
-		hot = vp.Choice("hot", n)
+		if vp.Param("hotall", 1) != 0 {
+			hot = vp.Choice("hot", n)
+		} else if vp.Choice("hot", 2) == 1 {
+			hot = n - 1 // quick tier: first and last operand position only
+		}
 	}
 	for i := 0; i < n; i++ {
 		if i == hot {
 			a.F[i] = vp.F32("f")
 		} else {
-			a.F[i] = drive.SmallCoord("s")
+			a.F[i] = float32(2*i - 5) // distinct concrete short-form values: swapped operands show
 		}
 	}
 	var e encode.Encoder
@@ -232,12 +237,9 @@ func H_MidPath() {
 		a := concreteArgs(k, i)
 		drive.Do(&e0, k, &a)
 	}
-	// force the run out by changing the verb, then cut the stream after the run
-	other := drive.KAbsHLineTo
-	a := concreteArgs(other, 0)
-	drive.Do(&e0, other, &a)
+	e0.ClosePathEndPath()
 	full, _ := e0.Bytes()
-	src := full // H is flushed only by the next verb, so `full` ends right after the run
+	src := full[:len(full)-1] // cut the final "end path" opcode: the stream ends right after the run
 	var d1 rec.Dest
 	err := decode.Decode(&d1, src)
 	vp.Assert(err == nil, "a stream ending inside a path is accepted by the decoder")
